@@ -1080,7 +1080,7 @@ Section FlatDetect.
   Lemma verify_total is_diff t ipats ifile hs : load C cdig t = inl hs -> lh_gens (root_hist hs) <> [] ->
     exists r, verify_result Hb matches C cdig is_diff t ipats ifile = Some r.
   Proof.
-    intros Hl Hg. unfold verify_result, verify_like. rewrite Hl. destruct (lh_gens (root_hist hs)) as [|g gs]; [congruence|].
+    intros Hl Hg. unfold verify_result, verify_like, verify_core. rewrite Hl. destruct (lh_gens (root_hist hs)) as [|g gs]; [congruence|].
     cbn [snd o_outcome]. eauto.
   Qed.
   Lemma visited_exists spec t q : wf_tree C t -> is_dir C t = true -> In q (visited (events spec [] t)) -> get C t q <> None.
